@@ -174,7 +174,8 @@ func (fc *FnCtx) execInstr(s *State, fn *ssa.Function, in ssa.Instruction) {
 			s.regs[x] = sliceVal(arr, mkI(0), n, n, types.NewSlice(at.Elem()))
 			return
 		}
-		if st, sname, ok := structOf(et); ok && !isValueStruct(sname) {
+		_, isDirectStruct := et.Underlying().(*types.Struct)
+		if st, sname, ok := structOf(et); ok && isDirectStruct && !isValueStruct(sname) {
 			// struct objects live on the heap at a fresh address
 			a := fc.newObject(s, sname, st, x.Comment)
 			s.regs[x] = ptrVal(a, x.Type())
